@@ -1,6 +1,6 @@
 (* Proofs about M8 (Model/NJobs.v) and about the functions regenerated from the source (Gen/T_njobs.v). *)
 From Coq Require Import ZArith List Bool Lia ZifyBool.
-Require Import JV.Base.PyPrelude JV.Model.NJobs JV.Gen.T_njobs JV.Gen.T_nested.
+Require Import JV.Base.PyPrelude JV.Model.NJobs JV.Gen.T_njobs JV.Gen.T_nested JV.Gen.T_call.
 Import ListNotations.
 Open Scope Z_scope.
 
@@ -681,4 +681,18 @@ Lemma C15_nesting_concurrency_holds :
 Proof.
   split; [exact conc_seq|]. split; [exact conc_thr|]. split; [exact conc_top|].
   intros cpus n children Hn Hr Hd. apply conc_top_parallel; assumption.
+Qed.
+
+(* Parallel.__call__ (regenerated test): the tasks run in the calling thread exactly when the backend's configure returned 1 --
+   for ANY backend, built-in (they fall back to SequentialBackend first) or user-defined *)
+Lemma call_inline_iff : forall n, call_runs_inline n = true <-> n = 1.
+Proof. intros n. unfold call_runs_inline. lia. Qed.
+
+Lemma one_worker_runs_inline : forall b e n b' eff,
+  configure b e n = Ok (b', eff) -> (call_runs_inline eff = true <-> bkind b' = KSeq).
+Proof.
+  intros b e n b' eff H. destruct (configure_spec _ _ _ _ _ H) as (_ & _ & [[Hs He] | [Hb Hne]]).
+  - subst eff. rewrite Hs. split; reflexivity.
+  - subst b'. rewrite call_inline_iff. split; [intros; contradiction|]. intros Hk.
+    destruct b as [k l]. cbn in Hk. subst k. unfold configure in H. cbn in H. destruct (n =? 0); cbn in H; inversion H. lia.
 Qed.
